@@ -1044,7 +1044,7 @@ class SuperGaussian(object):
             val = (-d * d * 0.5 + 2.0 * d * q2 - d -
                    2.0 * q2 * q2 + 4 * q2) * exp(-q2)
 
-        return -fac * h1 * val
+        return fac * h1 * val
 
 
 class QuinticSpline(object):
